@@ -466,6 +466,9 @@ def eval_call(ex, node, st, want):
                 p = SV(p.ty.inner, p.ty.get(p.t))
             ctx.assumptions_used.add('external:round(x,p) is uninterpreted; only idempotence is assumed')
             r = round_fn(ex)
+            if a.ty is XREAL:
+                ex.safety(st, z3.Not(XREAL.is_inf(a.t)), 'round-of-infinity')      # round(math.inf, p) raises OverflowError
+                a = SV(T.REAL, XREAL.val(a.t))
             x = to_real(a)
             res = r(x, p.t)
             st.pc.append(r(res, p.t) == res)
